@@ -106,7 +106,17 @@ type Val struct {
 	F float64
 	D map[string]*Val
 	L []*Val
+	// Origin is set on a dictionary that stands for the settings below a root
+	// path and whose contents have not been evaluated.
+	Origin string
 }
+
+// EAny marks an outcome the statements leave open: anything is accepted.
+const EAny EKind = 100
+
+// EErr: the read must fail, with a kind the statements leave open (several
+// settings fail for different reasons and any of them may be reported).
+const EErr EKind = 101
 
 // Text is the string conversion used when a value is spliced into text.
 func (v *Val) Text() (string, bool) {
@@ -185,6 +195,12 @@ const (
 )
 
 func (k EKind) String() string {
+	if k == EAny {
+		return "unspecified"
+	}
+	if k == EErr {
+		return "some error"
+	}
 	return [...]string{"ok", "cyclic-reference error", "unresolved-reference error", "operator error", "type error"}[k]
 }
 
